@@ -119,8 +119,9 @@ ALIAS_CONTEXTS = ['%s', 'op_push1 x01 %s', 'op_push2 x0102 %s', 'true if { %s }'
                   'push ~ { %s }']
 RUN_SCRIPTS = ['msg', 'msg2', 'ct', 'inv0', 'inv1', 'inv2', 'xfer', 'sign',
                'fail', 'cachekey']
-NESTS = ['top', 'if', 'try', 'loop', 'call', 'eval', 'if_call', 'if_try_call']
-DEPTH = {'top': 0, 'if': 1, 'try': 1, 'loop': 1, 'call': 1, 'eval': 1, 'if_call': 2,
+NESTS = ['top', 'if', 'else', 'try', 'except', 'loop', 'call', 'eval', 'if_call', 'if_try_call']
+DEPTH = {'top': 0, 'if': 1, 'else': 1, 'try': 1, 'except': 1, 'loop': 1, 'call': 1, 'eval': 1,
+         'if_call': 2,
          'if_try_call': 3}
 BAD_CALLS = ['add_plugin_scope_int', 'add_plugin_not_callable', 'remove_plugin_scope_int',
              'reset_plugins_none', 'add_contract_str_id', 'remove_contract_str_id',
@@ -164,6 +165,8 @@ def _rand_op(rng: Rng):
             op['ov_contracts'] = {rng.choice(sorted(IDS)): rng.choice(sorted(SATISFIES))}
         if rng.chance(1, 3):
             op['cache'] = True
+        if k == 'run' and rng.chance(1, 2):
+            op['nest'] = rng.choice(NESTS)
         if k == 'frun':
             op['nest'] = rng.choice(NESTS)
             kind = rng.weighted([(4, 'plugin'), (4, 'abi'), (2, 'ct')])
@@ -428,12 +431,18 @@ def _script_src(name, nest):
         body = 'push x01 push x02 @= kk 2 @kk pop0 pop0 @mine pop0'
     else:
         raise ValueError(name)
+    if name == 'fail' and nest in ('call', 'if_call', 'if_try_call'):
+        nest = 'top'        # its body defines a subroutine itself: no def inside def
     if nest == 'top':
         return body
     if nest == 'if':
         return 'true if { %s }' % body
     if nest == 'try':
         return 'try { %s } except { true pop0 }' % body
+    if nest == 'except':
+        return 'try { false verify } except { %s }' % body
+    if nest == 'else':
+        return 'false if { true pop0 } else { %s }' % body
     if nest == 'loop':
         return 'true loop { %s false }' % body
     if nest == 'call':
@@ -696,7 +705,7 @@ def do_run(w, op, run):
     log = w.log
     w.log = []
     # the run itself is judged only when no fault / re-entrancy was armed
-    if fault is None and nest == 'top':
+    if fault is None:
         name = op['script']
         se = sorted(eff_pl.get('signature_extensions', []))
         ct = sorted(eff_pl.get('check_template', []))
